@@ -195,6 +195,31 @@ let () =
       let outs = List.sort_uniq compare (List.map show finals) in
       if List.mem observed outs then Printf.printf "%s MEMBER\n" id
       else Printf.printf "%s NOT-REACHABLE observed={%s} model={%s}\n" id observed (String.concat " | " outs)
+    | id :: "CC" :: hs :: kind :: n :: rest
+      when (kind = "mem" || (String.length kind > 3 && String.sub kind 0 3 = "lim")) && int_of_string n <= 3 && List.mem "OBS" rest ->
+      (* races on one cas.Memory (directly or through LimitedStorage): outcome membership *)
+      let h = mk_h (parse_hashes hs) in
+      let n = int_of_string n in
+      let lim = if kind = "mem" then None else Some (z_of_int (int_of_string (String.sub kind 3 (String.length kind - 3)))) in
+      let rec threads i rest acc =
+        if i = 0 then (List.rev acc, rest) else
+        match rest with
+        | _ :: mt :: dg :: sz :: comb :: sc :: rest' ->
+          let d = { d_mt = str_of_hex mt; d_dg = str_of_hex dg; d_sz = z_of_int (int_of_string sz) } in
+          let evs = parse_script sc in
+          threads (i - 1) rest' ({ m_d = d; m_evs = evs; m_comb = (comb = "1"); m_fuel = fuel_of evs; m_lim = lim; m_pc = MStart } :: acc)
+        | _ -> failwith "bad CC case" in
+      let (ts, rest') = threads n rest [] in
+      let observed = match rest' with "OBS" :: o -> String.concat " " o | _ -> failwith "bad CC obs" in
+      let finals = explore_m h (nat_of_int (3 * n + 2)) { ms_mem = []; ms_thr = ts } in
+      let show st =
+        let rs = List.map (fun r -> match r with Some r -> res_name r | None -> "RUNNING") (mthread_results st) in
+        let bl = List.sort compare (List.map (fun (d, c) ->
+            Printf.sprintf "%s/%s/%d/%s" (hex_of_str d.d_mt) (hex_of_str d.d_dg) (int_of_z d.d_sz) (digest_str c)) st.ms_mem) in
+        Printf.sprintf "%s %s I=-1" (String.concat "," rs) (match bl with [] -> "-" | l -> String.concat ";" l) in
+      let outs = List.sort_uniq compare (List.map show finals) in
+      if List.mem observed outs then Printf.printf "%s MEMBER\n" id
+      else Printf.printf "%s NOT-REACHABLE observed={%s} model={%s}\n" id observed (String.concat " | " outs)
     | id :: ("CC" | "PX" | "HUGE" | "SX") :: _ -> Printf.printf "%s UNJUDGED\n" id
     | [] -> ()
     | _ -> Printf.printf "BADLINE %s\n" l)
